@@ -27,6 +27,11 @@ Acts(s) ==
            chain |-> "ethereum", addr |-> "0xabc", payload |-> "p1"] : ks \in ProperKeeps(4)}
     \cup {[name |-> "ValidateMessage", caller |-> "app1", key |-> "k1", src |-> "sA", ph |-> "p1", via |-> "direct", auth |-> {},
            scopedAuth |-> {"app1"}, keepArgs |-> ks] : ks \in ProperKeeps(5)}
+    \* degenerate argument values - an empty payload, an empty destination chain, an empty destination address: the
+    \* sender's authorisation is needed whatever is sent (a check skipped "because there is nothing to send")
+    \cup {[name |-> "CallContract", caller |-> "alice", via |-> "direct", through |-> "none", auth |-> au,
+           chain |-> d[1], addr |-> d[2], payload |-> d[3]] :
+            au \in {{}, {"mallory"}, {"alice"}}, d \in {<<"ethereum", "0xabc", "p0">>, <<"e0", "0xabc", "p1">>, <<"ethereum", "e0", "p1">>}}
     \cup {[name |-> "HookOpenWindow"]}
     \cup {[name |-> "CallContract", caller |-> "pr1", via |-> "self", through |-> "none", auth |-> {},
            chain |-> "ethereum", addr |-> "0xabc", payload |-> "p1"]}
@@ -47,6 +52,7 @@ C07_Named == Step(Named)
 C07_Frame == Step(Frame)
 Inst == [module |-> "Gateway", Sets |-> Sets, Keys |-> Keys, Msgs |-> Msgs, Cap |-> Cap,
          Retention |-> Retention, MinDelay |-> MinDelay, Probes |-> <<"pr1">>,
+         Payloads |-> [p0 |-> [len |-> 0, pat |-> "asc"]], Strings |-> [e0 |-> [len |-> 0, kind |-> "ascii"]],
          scale |-> [Q |-> "1", Qt |-> "1", t0 |-> 1000000]]
 ASSUME PrintT(<<"INST", ToJson(Inst)>>)
 Dump ==
